@@ -318,7 +318,7 @@ func checkC20(ctx *core.Ctx, rep *core.Report) {
 				case "last":
 					cn = sans[len(sans)-1]
 				}
-				run(c18Cert(cn, sans, nb), map[string]bool{"cn-in-san": true, "same-cert": true}, fmt.Sprintf("CN=%q SAN=%q", cn, sans))
+				run(c18Cert(cn, sans, nb, 0), map[string]bool{"cn-in-san": true, "same-cert": true}, fmt.Sprintf("CN=%q SAN=%q", cn, sans))
 			}
 		}
 	}
